@@ -168,6 +168,7 @@ def check(ctx):
     for rid, text in (("R-C09.1", "maximal munch for all strings; punctuators; spelling = matched slice"), ("R-C09.2", "fixed-token bucket discipline"),
                       ("R-C09.3", "identifier classification order"), ("R-C09.4", "line / column bookkeeping across newlines"),
                       ("R-C09.5", "progress of the scanning loops"), ("R-C09.6", "sibling agreement of the hand-written directive scanners"),
+                      ("R-C09.8", "the #line scanner accepts every digit sequence as line number / flag (C99 6.10.4), decided on the automaton of its numeric sub-patterns"),
                       ("R-C09.7", "input() starts from a clean cursor: every attribute the scanning paths write (position, line, file, pending token) is re-initialised, so no token of an earlier text is returned")):
         ctx.rule(rid, text)
     m = LM.LexModel()
@@ -349,6 +350,7 @@ def check(ctx):
             ctx.violation("R-C09.7", f"noreset:{attr}", f"CLexer.{attr} is written while scanning ({sorted({m__ for m__, _, _ in state[attr]})}) but input() does not re-initialise it: after new text is supplied the lexer can return a token (or a position) left over from the previous text",
                           file=lx.rel if "lx" in dir() else "pycparser/c_lexer.py", function="CLexer.input")
     ctx.require_instances("R-C09.7", 5)
+    ppline_number_language(ctx, "R-C09.8")
     ctx.require_instances("R-C09.1", 45)
     ctx.require_instances("R-C09.2", 60)
     ctx.require_instances("R-C09.5", 8)
@@ -510,6 +512,66 @@ def scanner_sibling_rules(ctx, rule_blank, rule_line):
         if not ok:
             viol(rule_line, f"ppline-trailing-blanks:{S.unparse(n.test)}:{idx}", f"in _handle_ppline the end-of-line test `{S.unparse(n.test)}` is not immediately preceded by blank skipping, unlike its siblings: a directive that ends here followed by "
                  "spaces or tabs (`# 7 ` + newline) is not recognised as complete and is reported as invalid", "CLexer._handle_ppline", n)
+
+
+def ppline_number_language(ctx, rid):
+    """C99 6.10.4: `# line digit-sequence ["s-char-sequence"] new-line`; GNU line markers add digit-sequence flags.  Every numeric item of
+    the #line scanner is matched with re.match(PATTERN, rest-of-line) and the cursor then moves by the extent of the match, so a digit
+    sequence is accepted iff the leftmost-first match of PATTERN on it covers the whole run (a shorter match leaves digits behind, which no
+    later step of the scanner accepts).  Decided on the automaton of PATTERN for digit runs of every length."""
+    lx = S.module("c_lexer")
+    pl = lx.method("CLexer", "_handle_ppline")
+    fo = S.folded("c_lexer")
+    n = 0
+    ref_node = R.plus(R.cls("0-9"))
+    for c in ast.walk(pl):
+        if not (isinstance(c, ast.Call) and S.unparse(c.func) in ("re.match", "re.fullmatch") and c.args):
+            continue
+        try:
+            pat = fo.ev(c.args[0], fo.env)
+        except Exception:
+            pat = None
+        if not isinstance(pat, str):
+            raise AnalysisError(f"_handle_ppline: pattern `{S.unparse(c.args[0])}` does not fold to a string")
+        node = R.from_pattern(pat)
+        alpha = R.Alphabet(list(R.charsets(node)) + list(R.charsets(ref_node)))
+        digits = alpha.classify(((48, 57),))
+        # is this a numeric item?  (its language contains some digit run) - the file-name pattern is not
+        whole = R.language_dfa(alpha, node)
+        q = whole.start
+        d0 = next(iter(digits))
+        q1 = whole.step(q, d0)
+        if q1 is None or not _accepts_some_digit_run(whole, digits):
+            continue
+        nfa = R.NFA(alpha)
+        root = nfa.new()
+        nfa.add_rule(root, node, "N")
+        full = R.prio_whole_string_dfa(R.PrioDFA(nfa, root), lambda ev: ev == "N")
+        w = R.find_in_a_not_b(R.language_dfa(alpha, ref_node), full)
+        n += 1
+        ok = w is None
+        ctx.oblige(rid, f"_handle_ppline: `{S.unparse(c.args[0])}` matches every digit sequence in full", ok,
+                   sample={"rule": rid, "pattern": pat[:60], "obligation": "[0-9]+ is matched in full (C99 6.10.4 digit-sequence)", "verdict": "holds" if ok else f"fails for {alpha.word(w)!r}"})
+        if not ok:
+            ctx.violation(rid, f"ppline-number:{S.unparse(c.args[0])}", f"the #line scanner matches its numeric items with `{S.unparse(c.args[0])}`, which does not cover the digit sequence {alpha.word(w)!r} in full: "
+                          f"`#line {alpha.word(w)}` is a valid directive (C99 6.10.4: digit-sequence, leading zeros allowed) and is rejected as invalid", file=lx.rel, function="CLexer._handle_ppline", line=c.lineno, construct=S.unparse(c)[:120])
+    if n < 2:
+        raise AnalysisError(f"_handle_ppline: only {n} numeric sub-pattern matches found (confirmed by reading: line number and flags)")
+
+
+def _accepts_some_digit_run(dfa, digits):
+    seen, stack = {dfa.start}, [dfa.start]
+    while stack:
+        q = stack.pop()
+        for a in digits:
+            nq = dfa.step(q, a)
+            if nq is None or nq in seen:
+                continue
+            if nq in dfa.accepting:
+                return True
+            seen.add(nq)
+            stack.append(nq)
+    return False
 
 
 def _is_blank_const(x):
